@@ -10,15 +10,15 @@ func reformatDescription(input string, maxWidth int) []string {
 
 	pend := ""
 	lastWasEmpty := false
-	for idx, line := range lines {
+	for _, line := range lines {
 
-		if idx > 0 && strings.TrimSpace(line) == "" {
+		if strings.TrimSpace(line) == "" {
 			if pend != "" {
 				linesOut = append(linesOut, pend)
 				pend = ""
 			}
-			// prevent duplicate newlines
-			if !lastWasEmpty {
+			// prevent duplicate newlines, and drop leading empty lines
+			if !lastWasEmpty && len(linesOut) > 0 {
 				linesOut = append(linesOut, "")
 			}
 			lastWasEmpty = true
@@ -26,7 +26,7 @@ func reformatDescription(input string, maxWidth int) []string {
 		}
 		lastWasEmpty = false
 
-		words := strings.Split(line, " ")
+		words := strings.Fields(line)
 		for _, word := range words {
 			if pend == "" {
 				pend = word
